@@ -631,10 +631,12 @@ def has_side_effect(node: ast.AST, safe_callable_whitelist: Collection[str] = fr
 
     if isinstance(node, ast.ClassDef):
         # Decorators are called, and bases and the class body are evaluated, when the class is
-        # defined
+        # defined. A base class or a metaclass may run code of its own when a class is made from it.
         return (
             node.name != "_"
             or bool(node.decorator_list)
+            or bool(node.bases)
+            or bool(node.keywords)
             or any(
                 has_side_effect(item, safe_callable_whitelist)
                 for item in itertools.chain(
